@@ -900,6 +900,20 @@ def gen_c05(tier, seed):
                  {"op": "delete", "bands": rng.choice([[nb - 1], [0], []]), "dry": False}, {"op": "restore_all"},
                  {"op": "delete", "bands": [], "dry": False}, {"op": "restore_all"}, {"op": "validate", "quick": False}]
         scens.append({"id": sid("C05", "legacy", i), "props": ["C05"], "mode": "clean", "no_create": True, "tags": ["plain", "legacy-tail"], "steps": steps})
+    # an archive in which one stored file is already lost or damaged: a gc / delete on it must still not
+    # remove anything that a kept version references (what is left of every version restores as before)
+    for i in range(4 if tier == "quick" else 40):
+        if i % 2:
+            t0, t1, o = cvlib.mates_pair(rng)
+            steps = [{"op": "tree", "tree": t0}, bk(o), {"op": "tree", "tree": t1}, bk(o), {"op": "tree", "tree": mut(rng, t1, maxlen=5)}, bk(o)]
+        else:
+            steps, sel0 = shared_block_history(rng)
+        nb = sum(1 for st in steps if st["op"] == "backup")
+        steps.append({"op": "damage_sweep", "with_header": False, "with_tails": False, "hows": ["delete", "trunc0", "garbage"],
+                      "sample": 0 if tier != "quick" else 16, "seed": seed * 100 + i,
+                      "then": [{"op": "delete", "bands": rng.choice([[], [], [0], [nb - 1]]), "dry": False, "break_lock": False},
+                               {"op": "restore_all"}]})
+        scens.append({"id": sid("C05", "damaged", i), "props": ["C05"], "mode": "clean", "tags": ["plain", "damaged-archive"], "steps": steps})
     # many blocks: two versions of 120-200 one-block files sharing half of them, one version deleted
     for i in range(2 if tier == "quick" else 10):
         n = rng.choice([120, 160, 200])
@@ -1076,8 +1090,11 @@ def gen_c07(tier, seed):
     for i in range(6 if tier == "quick" else 60):
         steps, o, nb = conc_archive(rng)
         steps = steps[:-1]
-        steps += [{"op": "delete", "bands": [0], "dry": False, "crash_at": rng.randrange(5, 12)},
-                  {"op": "delete", "bands": rng.choice([[0], []]), "dry": True}, {"op": "versions"},
+        steps += [{"op": "delete", "bands": [0], "dry": False, "crash_at": rng.randrange(5, 12)}]
+        if i % 2:
+            # ... and has been lying there for days or years
+            steps.append({"op": "age_files", "days": rng.choice([2, 40, 800])})
+        steps += [{"op": "delete", "bands": rng.choice([[0], []]), "dry": True}, {"op": "versions"},
                   {"op": "delete", "bands": [], "dry": False}, bk(o), {"op": "versions"},
                   {"op": "delete", "bands": [], "dry": rng.random() < 0.5, "break_lock": True}, {"op": "restore_all"}]
         scens.append({"id": sid("C07", "stale-lock", i), "props": ["C07"], "mode": "clean", "tags": ["stale-lock"], "steps": steps})
@@ -1306,6 +1323,25 @@ def gen_c11(tier, seed):
         scens.append({"id": sid("C11", "routes", i), "props": ["C11"], "mode": "clean", "tags": ["walk", "index-routes"],
                       "steps": [{"op": "tree", "tree": t}, {"op": "walk"}, bk(o), {"op": "list", "band": 0},
                                 {"op": "tree", "tree": t2}, bk(o), {"op": "list", "band": 1}]})
+    # stitched listings: a second backup killed at every point, the older version indexed with another hunk
+    # size, sub-directories whose contents sort after root files that plain string order would put first:
+    # what is listed from the interrupted version and the one before it is strictly increasing
+    for i in range(5 if tier == "quick" else 50):
+        t0 = [node("/", "Dir")]
+        for d in rng.sample(["a", "d", "a.b", "b"], rng.randrange(1, 3)):
+            t0.append(node("/" + d, "Dir"))
+            for f in rng.sample(["x", "y", "b", "e"], rng.randrange(2, 4)):
+                t0.append(node(f"/{d}/{f}", "File", cvlib.rand_content(rng, 4) or b"\x05", mt=(1600000700, 0)))
+        for f in rng.sample(["b", "c", "e", "m1", "zz", "k"], rng.randrange(3, 6)):
+            if not any(path_str(n["p"]) == "/" + f for n in t0):
+                t0.append(node("/" + f, "File", cvlib.rand_content(rng, 4) or b"\x06", mt=(1600000701, 0)))
+        H = rng.choice([2, 3, 4, 7])
+        o = {"H": H, "M": 1000, "S": rng.choice([0, 1000])}
+        t1 = mut(rng, t0, maxlen=4, nmut=2)
+        scens.append({"id": sid("C11", "stitched", i), "props": ["C11"], "mode": "clean", "tags": ["walk", "stitched-listing"],
+                      "steps": [{"op": "tree", "tree": t0}, bk(dict(o, H=rng.choice([1000, 5, H]))), {"op": "tree", "tree": t1},
+                                {"op": "sweep", "base": bk(o), "mode": "crash", "sample": 0 if tier != "quick" else 16, "seed": seed * 100 + i,
+                                 "then": [{"op": "list", "band": -2}, {"op": "list", "band": -2, "subtree": "/" + path_str(t0[1]["p"]).strip("/")}]}]})
     # the order also holds for what is written while the source changes under the backup
     scens += during_scenarios("C11", rng, 16 if tier == "quick" else 160)
     n = 80 if tier == "quick" else 1000
@@ -1579,6 +1615,13 @@ def gen_c17(tier, seed):
         steps = [{"op": "new_archive", "rt": f1}] + hist + [{"op": "archive_digest"}, {"op": "new_archive", "rt": f2}] + hist + [{"op": "archive_digest"}]
         steps += [{"op": "new_archive", "rt": f1}] + hist + [{"op": "archive_digest"}]
         scens.append({"id": sid("C17", "pfx", i), "props": ["C17"], "mode": "clean", "tags": ["replay", "prefix-family", f1, f2], "steps": steps})
+    # a history too large to log verb by verb, replayed inside the harness under two runtime flavours:
+    # more than 10 000 index hunks (several index sub-directories), then the unchanged tree again
+    # (in one replay the listing of the first index sub-directory is slow, in the other that of the second)
+    scens.insert(0, {"id": sid("C17", "bulk", 0), "props": ["C17"], "mode": "probe", "no_create": True, "tags": ["replay", "index-subdirectories"],
+                     "steps": [{"op": "bulk_history", "nfiles": 10040, "rt": "mt8", "slow": ["list_dir", "i/00000", 3000]},
+                               {"op": "bulk_history", "nfiles": 10040, "rt": "mt8", "slow": ["list_dir", "i/00001", 3000]}]
+                              + ([{"op": "bulk_history", "nfiles": 10040, "rt": "ct"}, {"op": "bulk_history", "nfiles": 10040, "rt": "mt2-nodrain"}] if tier != "quick" else [])})
     # slow storage: in one of the two replays one storage verb of a backup takes half a minute (a
     # minute, two minutes in the thorough tier) longer; what is written may not depend on how long
     # the run takes
